@@ -1,11 +1,11 @@
 (* The complete registry: every family's table. *)
 From Coq Require Import ZArith String List Bool.
 From PushModel Require Import Base.Sx Base.Machine Base.F32 Model.Item Model.State Model.InstrBase Model.Registry Model.Interp
-  Model.RegistryVec Model.RegistryListIo Model.RegistryGraph.
+  Model.RegistryVec Model.RegistryListIo Model.RegistryGraph Model.RegistryNbr.
 Import ListNotations.
 Section All.
   Context {FO : FloatOps}.
   Definition full_table : list (string * sem) :=
-    tbl_core ++ tbl_bvec ++ tbl_ivec ++ tbl_fvec ++ tbl_list ++ tbl_io ++ tbl_graph.
+    tbl_core ++ tbl_bvec ++ tbl_ivec ++ tbl_fvec ++ tbl_list ++ tbl_io ++ tbl_graph ++ tbl_nbr.
   Definition full_registry : registry := mk_registry full_table.
 End All.
